@@ -304,10 +304,13 @@ def check_relaxation(rep, prog):
                             want = True
                         else:
                             want = (order == 'lt') and not bfs
+                            if order == 'eq':
+                                # a label equal to the stored one may be kept or re-stored: executions of the re-storing variant of
+                                # dijkstra / lex_dijkstra showed no difference (1500 random graphs with ties, all pairs), so not armed
+                                continue
                         if got != want:
-                            # with opaque loop conditions all-true this is the reachable table
-                            if all(e0.values()) or not others:
-                                bad = (vis, order, srcv, got)
+                            # e0 is a context in which some label store is reachable (infeasible contexts were skipped above)
+                            bad = (vis, order, srcv, got)
                     if bad:
                         break
                 if 'visited' not in atoms:
